@@ -47,7 +47,7 @@ func TestC11(t *testing.T) {
 	if os.Getenv("VERIF_TIER") == "thorough" {
 		maxCross, maxCrossZero = 4, 12
 	}
-	nCross, nCrossZero := 0, 0
+	nCross, nCrossZero, nCrossSendOff := 0, 0, 0
 	rapid.Check(t, func(t *rapid.T) {
 		g := GenABCIGenesis(t)
 		d := newABCIDriver(t, g)
@@ -99,7 +99,10 @@ func TestC11(t *testing.T) {
 		st.Count("tx_log_differences_not_compared", int64(logDiffs))
 		// thorough: a second OS process (fresh map seeds, ASLR) replays a few histories
 		doCross := false
-		if d.zeroStart > 0 && d.passed > 0 && nCrossZero < maxCrossZero {
+		if g.BankSendOff != "" && nCrossSendOff < maxCross {
+			nCrossSendOff++ // histories on a chain whose bank has transfers switched off (mostly refusals) get their own quota
+			doCross = true
+		} else if d.zeroStart > 0 && d.passed > 0 && nCrossZero < maxCrossZero {
 			nCrossZero++
 			doCross = true
 		} else if nCross < maxCross {
